@@ -401,6 +401,11 @@ func (g *Gen) Subnet(loc []byte, cidr string, mapid string) {
 	g.add("%", "%"+locText(loc)+","+cidr+","+mapid)
 }
 
+// SubnetDefault declares a % line without a map id: a subnet of the unnamed default map \000\000.
+func (g *Gen) SubnetDefault(loc []byte, cidr string) {
+	g.add("%", "%"+locText(loc)+","+cidr)
+}
+
 // FileText is the data file.
 func FileText(lines []Line) []byte {
 	var b []byte
